@@ -3,8 +3,8 @@ prop("C14",
                 "Go map), frame_foreign (unconditional, also for failing calls), restore_atomic, chain-name injectivity "
                 "of the hash input; the daemon's per-pod protocol of pkg/galaxy/server.go (port file written before "
                 "SetupPortMapping; failed_add_leaves_nothing for EVERY failing iptables call, add_then_del_leaves_nothing, "
-                "faulty_del_then_retry_leaves_nothing; failed_restore_keeps_port_file_counter = known finding "
-                "cleanup-fails-when-chains-missing); KUBE-MARK-MASQ is carved out of the frame (D18: setup_rewrites_kube_mark_masq + "
+                "faulty_del_then_retry_leaves_nothing, cleanup_idempotent; failed_restore_keeps_port_file_before_fix is "
+                "about the code before fix a5e6428); KUBE-MARK-MASQ is carved out of the frame (D18: setup_rewrites_kube_mark_masq + "
                 "_counter, known finding kube-mark-masq-rewritten).  Sockets: ports_distinct_while_held, "
                 "second_bind_fails_while_held, failed_open_leaves_none, held_until_close, close_releases are proved "
                 "over a model of the kernel bind table; that the kernel behaves like the model is tested, not proved.",
